@@ -83,8 +83,32 @@ N_ENUM = 254  # 127 families x {no singleton simplices, all}
 
 def plan(tier):
     if tier == "quick":
-        return {"enum": N_ENUM, "enum-labels": N_ENUM * 5, "random": 300}
-    return {"enum": N_ENUM, "enum-labels": N_ENUM * 5 * 8, "random": 48000}
+        return {"enum": N_ENUM, "enum-labels": N_ENUM * 5, "random": 300, "sequence": 60}
+    return {"enum": N_ENUM, "enum-labels": N_ENUM * 5 * 8, "random": 48000, "sequence": 6000}
+
+
+def _sequence_case(mon, idx, rng):
+    """Same-object sequences: boundary matrices / Hodge Laplacians of a complex that was edited in place must
+    equal those of a freshly built equal complex (which the other kinds check algebraically)."""
+    from .. import ops, stale
+
+    kind = ("int", "gap", "str")[idx % 3]
+    _, pool = ops.node_pool(rng, kind, 6)
+
+    def build():
+        S = xgi.SimplicialComplex()
+        for _ in range(rng.randint(2, 4)):
+            S.add_simplex(ops.rand_members(rng, pool[:5], 2, 4))
+        return S
+
+    def bm(k, idx_=False):
+        return lambda S: xgi.boundary_matrix(S, order=k, index=idx_)
+
+    fns = [(f"boundary_matrix(order={k})", bm(k)) for k in (1, 2, 3)]
+    fns += [("boundary_matrix(order=2,index=True)", bm(2, True))]
+    fns += [(f"hodge_laplacian(order={k})", (lambda k: (lambda S: xgi.hodge_laplacian(S, order=k)))(k)) for k in (0, 1, 2)]
+    mon.note("sequence-cases")
+    stale.run(mon, rng, "SimplicialComplex", fns, build, pool)
 
 
 def floors(tier):
@@ -334,6 +358,8 @@ def assignments(rng, oriented, how):
 
 
 def run_case(mon, kind, idx, rng):
+    if kind == "sequence":
+        return _sequence_case(mon, idx, rng)
     if kind in ("enum", "enum-labels"):
         j = idx % N_ENUM if kind == "enum" else (idx // 5) % N_ENUM
         n, fam = fams()[j // 2]
